@@ -309,6 +309,12 @@ void pp_dbl_lit_k18(fp18_t l, ep_t r, const ep_t p, const ep3_t q) {
 	fp_null(t5);
 	fp_null(t6);
 
+	if (ep3_curve_is_twist() == RLC_EP_DTYPE) {
+		/* D-type twist: Q maps to (x w^2, y w^3), the x term sits at v = w^2
+		 * (M-type: (x w^4, y w^3) / xi, the caller scales Q by 1 / xi). */
+		two = 1;
+	}
+
 	RLC_TRY {
 		fp_new(t0);
 		fp_new(t1);
